@@ -1280,6 +1280,9 @@ class SymInterp(ce.Interp):
                 return args[0] in list(recv)
             if m == "iter_mut" and n == 0 and isinstance(recv, (list, SliceView)):
                 return IterV([ElemRef(recv, i) for i in range(len(recv))])
+            if m == "map" and n == 1 and isinstance(args[0], ce.ClosureV):
+                # `[T; N]::map`: the closure applied to the elements in order, an array of the results
+                return [self.call_closure(args[0], [x]) for x in recv]
             if m in ("split_at", "split_at_mut") and n == 1 and _is_int(args[0]):
                 if not 0 <= args[0] <= len(recv):
                     raise ce.Unsupported("split_at out of bounds (would panic)")
